@@ -5,15 +5,17 @@ const asidePkg = "github.com/redis/rueidis/rueidisaside"
 func init() {
 	checks["C39"] = &checkDef{
 		Level:       levelOther,
-		Explanation: "PARTIAL claim. Real rueidisaside Client.Get (both lock flavours: SET NX GET PX and the acquireLock script), keepalive, register, onInvalidation, with a stub rueidis.Client whose reply to every step is a decision: the cached GET of the key (nil, stored value, another client's placeholder, error), the keep-alive marker SET (ok/error), the lock acquisition (acquired, lost to another client, error), the holder-liveness read (dead, alive, error), the setkey script (ok/error), and a loader that succeeds or fails; an environment goroutine delivers invalidations for the key so that waits end; at most 3 retry rounds. Oracle: when Get returns without error the value is never the internal 'rueidisid:' placeholder and is the loader's value or the stored one; the loader runs only after this client acquired the lock; a failed loader or a failed store is followed by the lock-release script with this client's id; a dead holder's lock is deleted before retrying.",
+		Explanation: "PARTIAL claim. Real rueidisaside Client.Get (both lock flavours: SET NX GET PX and the acquireLock script), keepalive, register, onInvalidation, with a stub rueidis.Client whose reply to every step is a decision: the cached GET of the key (nil, stored value, another client's placeholder, error), the keep-alive marker SET (ok/error), the lock acquisition (acquired, lost to another client, error), the holder-liveness read (dead, alive, error), the setkey script (ok/error), and a loader that succeeds or fails; an environment goroutine delivers invalidations for the key so that waits end; at most 3 retry rounds. Oracle: when Get returns without error the value is never the internal 'rueidisid:' placeholder and is the loader's value or the stored one; the loader runs only after this client acquired the lock; a failed loader or a failed store is followed by the lock-release script with this client's id; a dead holder's lock is deleted before retrying. Concurrent first Gets (two goroutines on a fresh client, delay-bounded schedules): whatever the interleaving of the two id registrations, every lock is taken under the id the client registered and keeps refreshing.",
 		Assumptions: []string{"the Lua scripts (delkey, setkey, acquireLock) are not executed: the stub answers in their place (their Redis-side semantics is a one-line compare-and-act each)", "commands are built by the real command builder (cmds.NewBuilder)"},
 		Trusted:     []string{"stub client (harness code)"},
 		Outside:     []string{"'load once across clients' and wake-ups across several clients: they need Redis' key and client-tracking semantics over several connections, which is not encoded", "marker refresh timers, Close racing with Get"},
-		Bounds:      map[string]any{"quick": "≤ 3 rounds per Get, both lock flavours", "thorough": "≤ 4 rounds"},
+		Bounds:      map[string]any{"quick": "≤ 3 rounds per Get, both lock flavours; two racing Gets with delay budget 1", "thorough": "≤ 4 rounds; delay budget 2"},
 		specs: func(tier string) []specRef {
 			r := hsd(asidePkg, "VerifC39_get", P{"max_rounds": q(tier, int64(3), 4)}, 0, 3000000, 3000, "value", "error", "released", "deadholder")
 			r.dir = "rueidisaside"
-			return []specRef{r}
+			c := hsd(asidePkg, "VerifC39_concurrent", nil, q(tier, 1, 2), 3000000, 3000, "raced", "done")
+			c.dir = "rueidisaside"
+			return []specRef{r, c}
 		},
 	}
 }
